@@ -38,6 +38,8 @@ class OpSpec:
             return env[e.id]
         if t in self.count_texts:
             return ("count", False)
+        if isinstance(e, ast.Attribute) and e.attr in ("size", "num_elements", "dtype") and self._count_like(e, env):
+            return ("count", False)
         if isinstance(e, ast.Name):
             r = self.refs.resolve(e)
             if r in self.cat.ops:
@@ -114,10 +116,31 @@ class OpSpec:
         return None
 
     # ------------------------------------------------------------------ conditions
+    def _assumed(self, t, which) -> bool:
+        for a in which:
+            if callable(a):
+                if a(t):
+                    return True
+            elif norm(t) == a:
+                return True
+        return False
+
+    def _count_like(self, e, env) -> bool:
+        """A number of points by role: mentions a `.size` / `.num_elements` / `.dtype` attribute and none of the operands."""
+        has = False
+        for x in ast.walk(e):
+            if isinstance(x, ast.Attribute) and x.attr in ("size", "num_elements", "dtype"):
+                has = True
+            if isinstance(x, ast.Name) and x.id in self.operand_names:
+                return False
+            if isinstance(x, ast.Name) and (env.get(x.id) or (None,))[0] == "operand":
+                return False
+        return has
+
     def cond(self, t, env) -> Optional[bool]:
-        if norm(t) in self.assume_true:
+        if self._assumed(t, self.assume_true):
             return True
-        if norm(t) in self.assume_false:
+        if self._assumed(t, self.assume_false):
             return False
         if isinstance(t, ast.UnaryOp) and isinstance(t.op, ast.Not):
             c = self.cond(t.operand, env)
@@ -206,7 +229,7 @@ class OpSpec:
                     return True
                 tg = st.targets[0]
                 if isinstance(tg, ast.Name):
-                    if v is None and tg.id in self.count_texts:
+                    if v is None and (tg.id in self.count_texts or self._count_like(st.value, env)):
                         v = ("count", False)  # the definition of the count itself
                     env = dict(env)
                     env[tg.id] = v
